@@ -106,6 +106,8 @@ func TestTrace(t *testing.T) {
 		traceLookup(t, o)
 	case "backup":
 		traceBackup(t, o)
+	case "updater":
+		traceUpdater(t, o)
 	default:
 		t.Fatalf("unknown family %q", o.family)
 	}
